@@ -609,16 +609,16 @@ class Check(core.PropertyCheck):
     def scenarios(self, ctx, models):
         rng = random.Random(ctx.seed + 42)
         kinds = self.model_constants(ctx.tier)["AtomKind"]
-        behs, total = self._complete(models[0].graph, ctx.rng, 500 if ctx.quick else 5000)
+        behs, total = self._complete(models[0].graph, ctx.rng, 500 if ctx.quick else 1412)
         ctx.notes["complete_expressions_in_graph"] = total
         for b in behs:
             yield self._scenario(rng, b, models[0].constants["AtomKind"], "model")
         simc = dict(self.model_constants("thorough"), MaxAtoms=4 if ctx.quick else 5, MaxDepth=2)
-        sims, _ = ctx.simulate(self.MODEL, simc, num=250 if ctx.quick else 3000, depth=40, timeout=1200)
+        sims, _ = ctx.simulate(self.MODEL, simc, num=250 if ctx.quick else 2500, depth=40, timeout=1200)
         for b in sims:
             if b[-1][0] == "Finish":
                 yield self._scenario(rng, b, kinds, "simulate")
-        for _ in range(200 if ctx.quick else 3000):
+        for _ in range(200 if ctx.quick else 2500):
             yield core.Scenario(self._random(rng), source="random")
 
     # -- random driver: free-form expressions (more atoms, deeper, every operator, dependent atoms, every flow type)
